@@ -93,6 +93,9 @@ def run_case(c):
                 if _acceptable(cons):
                     conss.append(cons)
                     break
+        if rng.random() < 0.4:
+            conss.insert(rng.randrange(len(conss) + 1), consgen.discriminating(rng, info))
+            stats["specs_with_discriminating_quantifier"] += 1
         k_extra = rng.choice([0, 0, 1]) if len(conss) > 1 else 0
         in_spec, extra = conss[:len(conss) - k_extra], conss[len(conss) - k_extra:]
         spec = text + "".join("where " + cs.to_text(x) + "\n" for x in in_spec)
